@@ -871,8 +871,9 @@ namespace bloch::compiler {
         if (!check(TokenType::Semicolon)) {
             bool isFinal = match(TokenType::Final);
 
-            if (check(TokenType::Int) || check(TokenType::Float) || check(TokenType::Char) ||
-                check(TokenType::String) || check(TokenType::Bit) || check(TokenType::Qubit)) {
+            // forInit = variableDeclaration | expressionStatement: any type may start it
+            // (long, boolean and class types included), as in an ordinary statement.
+            if (isTypeAhead() || check(TokenType::At)) {
                 initializer = parseVariableDeclaration(isFinal, false);
             } else {
                 if (isFinal) {
